@@ -13,7 +13,7 @@ import os
 from sim import core, canon, ops, simio
 from checks.common import PoolCheck, delivery_facts, merge, short, jcopy, shrink_plan
 
-ENTRY_POINTS = ('is_valid', 'iter_errors', 'validate', 'decode', 'decode_lax',
+ENTRY_POINTS = ('is_valid', 'iter_errors', 'validate', 'decode', 'decode_lax', 'decode_skip', 'pkg_to_dict_skip',
                 'pkg_is_valid', 'pkg_iter_errors', 'pkg_validate', 'pkg_to_dict')
 CHANNELS = ('bytes', 'text', 'bytesio', 'stringio', 'raw', 'raw', 'buffered', 'textio', 'duck',
             'path', 'pathobj', 'fileurl', 'http', 'etree', 'element', 'resource', 'resource_stream')
@@ -87,6 +87,10 @@ class C04(PoolCheck):
                 return {'k': 'ok', 'v': canon.canon_data(schema.decode(source))}
             if ep == 'pkg_to_dict':
                 return {'k': 'ok', 'v': canon.canon_data(xmlschema.to_dict(source, schema))}
+            if ep == 'decode_skip':
+                return {'k': 'ok', 'v': canon.canon_data(schema.decode(source, validation='skip'))}
+            if ep == 'pkg_to_dict_skip':
+                return {'k': 'ok', 'v': canon.canon_data(xmlschema.to_dict(source, schema, validation='skip'))}
             if ep == 'decode_lax':
                 data, errs = schema.decode(source, validation='lax')
                 return {'k': 'ok', 'v': [canon.canon_data(data), ops.errors_canon(errs)]}
@@ -219,6 +223,15 @@ class C04(PoolCheck):
         if ref_dec['k'] != 'ok':
             return None
         D, DE = ref_dec['v']
+        if name in ('decode_skip', 'to_dict_skip'):
+            # the decoded data of a VALID document does not depend on the validation mode
+            if g['k'] != 'ok':
+                base.update(clause='raise', cls=g['cls'])
+                return base
+            if not DE and E == [] and g['v'] != D:
+                base.update(clause='skip-mode-data-differs-for-valid-document')
+                return base
+            return None
         if name == 'decode_lax':
             if g['k'] != 'ok':
                 base.update(clause='raise', cls=g['cls'])
